@@ -156,9 +156,13 @@ def run_case(case):
         base = p.text()
         if keep:
             base = layout.render_free(p, case["seed"], layout.FreeOpts(comments=True)).text()
-        for _ in range(case["n"]):
+        for j in range(case["n"]):
             src = mutate(base, rng)
             one(src, case, std, keep, res)
+            if j % 8 == 0:
+                fs, info = util.block_cosim(src, std=std, ignore_comments=not keep, case=case)
+                res["findings"] += fs
+                res["counts"]["block-cosim"] = res["counts"].get("block-cosim", 0) + 1
             n += 1
         res["sample"] = {"kind": "mutant", "seed": case["seed"], "text": src[:200]}
     elif case["kind"] == "random":
